@@ -124,6 +124,30 @@ def _case_job(job):
             if rec['verdict'] != 'DISCHARGED' and getattr(ob, 'hyps_smt2', None):
                 rec['smt2'] = engine.full_smt2(ob)
             out['obligations'].append(rec)
+        # ---- bounded run-time twin (never counted as proved): random small real instances through the same post
+        if hasattr(c, 'native'):
+            nb = int(os.environ.get('PYVC_TWIN_N', '400' if both else '40'))
+            seed = int(os.environ.get('VERIF_SEED', '0')) + 17
+            have = [x for x in cache if x[2] == 'random'] if seed == 18 and False else []
+            ev = 0
+            nontrivial = set()
+            fails = {}
+            sample = None
+            for P, nat in refute.random_natives(c, case, n=nb, seed=seed):
+                ev += 1
+                key = json.dumps(P, sort_keys=True, default=str)
+                if nat['outcome'].startswith('return') and any(v is True for v in nat['posts'].values()):
+                    nontrivial.add(key)
+                if sample is None:
+                    sample = dict(params=P, outcome=nat['outcome'], posts=len(nat['posts']))
+                for k2, v in nat['posts'].items():
+                    if v is False and k2 not in fails:
+                        fails[k2] = dict(name=k2, function=c.qualname, case=engine.case_id(case), params=P, native=nat,
+                                         detail='run-time twin predicate false on a random small real instance')
+                if '__post_error__' in nat['posts'] and '__post_error__' not in fails:
+                    fails['__post_error__'] = dict(name=c.prefix + '.twin_error', function=c.qualname, case=engine.case_id(case), params=P,
+                                                   native=nat, detail=nat['posts']['__post_error__'][:400], error=True)
+            out['bounded'] = dict(evaluations=ev, distinct_nontrivial=len(nontrivial), failures=list(fails.values()), sample=sample)
     except Exception as e:
         out['error'] = f'{type(e).__name__}: {e}\n{traceback.format_exc()}'
     out['seconds'] = round(time.time() - t0, 2)
